@@ -12,7 +12,7 @@ import faulthandler
 import multiprocessing
 from concurrent.futures import ProcessPoolExecutor, wait, FIRST_COMPLETED
 
-from . import core
+from . import core, fsseam
 
 PROPS = {
     'C02': 'rbqlsim.props.c02',
@@ -53,6 +53,7 @@ def run_chunk(args):
     faulthandler.enable()
     out = _blank_summary()
     try:
+        fsseam.new_process_scratch()
         mod = prop_module(pid)
         core.load_tree()
         if hasattr(mod, 'worker_init'):
@@ -180,6 +181,7 @@ def fresh_replay(pid, path):
 def run_batch(pid, tier, seed, runs=None, workers=None, deadline_s=None, want_digests=False, write_evidence=True, quiet=False):
     mod = prop_module(pid)
     core.load_tree()   # import once in the parent; forked workers inherit the modules
+    fsseam.ensure_root()
     cfg = dict(mod.TIERS[tier])
     if runs is not None:
         cfg['runs'] = runs
